@@ -9,6 +9,9 @@ package codec
 import (
 	"fmt"
 	"reflect"
+	"sort"
+	"strconv"
+	"strings"
 	"sync"
 
 	"google.golang.org/protobuf/proto"
@@ -192,9 +195,10 @@ func c12SkeletonTree(md protoreflect.MessageDescriptor, levels int) *C12Msg {
 }
 
 type c12Skel struct {
-	ref   proto.Message // never modified, never encoded after construction
-	bytes []byte
-	kept  map[bool]proto.Message // per decoder: one decoded skeleton kept for the whole process
+	ref    proto.Message // never modified, never encoded after construction
+	bytes  []byte
+	kept   map[bool]proto.Message // per decoder: one decoded skeleton kept for the whole process
+	probed map[bool]bool          // per decoder: append probe done on a decoded skeleton
 }
 
 var (
@@ -222,9 +226,242 @@ func c12SkeletonOf(ty c12Type) (*c12Skel, error) {
 	if err != nil {
 		return nil, err
 	}
-	s := &c12Skel{ref: ref, bytes: b, kept: map[bool]proto.Message{}}
+	s := &c12Skel{ref: ref, bytes: b, kept: map[bool]proto.Message{}, probed: map[bool]bool{}}
 	c12Skels[string(ty.md.FullName())] = s
 	return s, nil
+}
+
+// ---- aliasing inside one decoded message ---------------------------------------------------------
+
+type c12Range struct {
+	lo, hi uintptr
+	what   string
+}
+
+// c12SliceRanges collects, by Go reflection over the generated structs, the memory range
+// [ptr, ptr+cap*elemsize) of every slice-typed exported field of every message reachable
+// from v (a pointer to a generated message struct).
+func c12SliceRanges(v reflect.Value, path string, out *[]c12Range) {
+	c12SliceRangesN(v, path, out, false)
+}
+
+// c12SliceRangesN: named = false skips building the field paths (fast pass).
+func c12SliceRangesN(v reflect.Value, path string, out *[]c12Range, named bool) {
+	if v.Kind() != reflect.Ptr || v.IsNil() || v.Elem().Kind() != reflect.Struct {
+		return
+	}
+	st := v.Elem()
+	for i := 0; i < st.NumField(); i++ {
+		sf := st.Type().Field(i)
+		if sf.PkgPath != "" { // unexported: state, sizeCache, unknownFields
+			continue
+		}
+		fv := st.Field(i)
+		switch fv.Kind() {
+		case reflect.Slice:
+			if fv.Cap() > 0 {
+				lo := fv.Pointer()
+				what := ""
+				if named {
+					what = path + "." + sf.Name
+				}
+				*out = append(*out, c12Range{lo, lo + uintptr(fv.Cap())*fv.Type().Elem().Size(), what})
+			}
+			if fv.Type().Elem().Kind() == reflect.Ptr {
+				for j := 0; j < fv.Len(); j++ {
+					sub := ""
+					if named {
+						sub = path + "." + sf.Name + "[" + strconv.Itoa(j) + "]"
+					}
+					c12SliceRangesN(fv.Index(j), sub, out, named)
+				}
+			}
+		case reflect.Ptr:
+			if fv.IsNil() {
+				continue
+			}
+			sub := ""
+			if named {
+				sub = path + "." + sf.Name
+			}
+			c12SliceRangesN(fv, sub, out, named)
+		case reflect.Map:
+			if fv.Type().Elem().Kind() == reflect.Ptr {
+				it := fv.MapRange()
+				for it.Next() {
+					c12SliceRangesN(it.Value(), path+"."+sf.Name+"[]", out, named)
+				}
+			}
+		}
+	}
+}
+
+// c12Overlap: fast unnamed pass over x; only if two ranges overlap the walk is repeated
+// with field paths for the description.
+func c12Overlap(x proto.Message, what string) (string, int) {
+	var rs []c12Range
+	c12SliceRangesN(reflect.ValueOf(x), "", &rs, false)
+	if c12OverlappingSlices(rs) == "" {
+		return "", len(rs)
+	}
+	var named []c12Range
+	c12SliceRangesN(reflect.ValueOf(x), what, &named, true)
+	return c12OverlappingSlices(named), len(rs)
+}
+
+// c12OverlappingSlices returns a description of two slice fields whose backing memory
+// (up to capacity) overlaps, or "".
+func c12OverlappingSlices(rs []c12Range) string {
+	sort.Slice(rs, func(i, j int) bool { return rs[i].lo < rs[j].lo })
+	for i := 1; i < len(rs); i++ {
+		if rs[i].lo < rs[i-1].hi {
+			return fmt.Sprintf("%s and %s overlap in memory (an append to one overwrites the other)", rs[i-1].what, rs[i].what)
+		}
+	}
+	return ""
+}
+
+// c12GoAppend appends elem to the repeated field fd of the generated struct behind m with
+// reflect.Append, which — like a plain Go append in user code — uses spare capacity.
+func c12GoAppend(m protoreflect.Message, fd protoreflect.FieldDescriptor, makeElem func(reflect.Type) (reflect.Value, bool)) bool {
+	rv := reflect.ValueOf(m.Interface())
+	if rv.Kind() != reflect.Ptr || rv.IsNil() || rv.Elem().Kind() != reflect.Struct {
+		return false
+	}
+	st := rv.Elem()
+	for i := 0; i < st.NumField(); i++ {
+		parts := strings.Split(st.Type().Field(i).Tag.Get("protobuf"), ",")
+		if len(parts) < 2 {
+			continue
+		}
+		if n, err := strconv.Atoi(parts[1]); err != nil || n != int(fd.Number()) {
+			continue
+		}
+		fv := st.Field(i)
+		if fv.Kind() != reflect.Slice || !fv.CanSet() {
+			return false
+		}
+		e, ok := makeElem(fv.Type().Elem())
+		if !ok {
+			return false
+		}
+		fv.Set(reflect.Append(fv, e))
+		return true
+	}
+	return false
+}
+
+// c12AppendEverywhere appends one marked element to every repeated field of every message
+// reachable from a — in place, through protoreflect List.Append (goStyle false) or through
+// a Go-level append on the struct field (goStyle true) — and does exactly the same to the
+// structurally equal reference r, whose lists were allocated one by one.
+func c12AppendEverywhere(a, r protoreflect.Message, goStyle bool, salt int) {
+	fs := a.Descriptor().Fields()
+	for i := 0; i < fs.Len(); i++ {
+		fd := fs.Get(i)
+		switch {
+		case fd.IsMap():
+			if fd.MapValue().Kind() == protoreflect.MessageKind && a.Has(fd) && r.Has(fd) {
+				rm := r.Mutable(fd).Map()
+				a.Mutable(fd).Map().Range(func(k protoreflect.MapKey, v protoreflect.Value) bool {
+					if rm.Has(k) {
+						c12AppendEverywhere(v.Message(), rm.Mutable(k).Message(), goStyle, salt)
+					}
+					return true
+				})
+			}
+		case fd.IsList():
+			la, lr := a.Mutable(fd).List(), r.Mutable(fd).List()
+			n := la.Len()
+			if lr.Len() < n {
+				n = lr.Len()
+			}
+			if fd.Kind() == protoreflect.MessageKind {
+				for j := 0; j < n; j++ { // the elements that were decoded, not the appended ones
+					c12AppendEverywhere(la.Get(j).Message(), lr.Get(j).Message(), goStyle, salt)
+				}
+			}
+			for _, side := range []struct {
+				m protoreflect.Message
+				l protoreflect.List
+			}{{a, la}, {r, lr}} {
+				if goStyle {
+					done := c12GoAppend(side.m, fd, func(t reflect.Type) (reflect.Value, bool) {
+						if fd.Kind() == protoreflect.MessageKind {
+							if t.Kind() != reflect.Ptr {
+								return reflect.Value{}, false
+							}
+							e := reflect.New(t.Elem())
+							pm, ok := e.Interface().(proto.Message)
+							if !ok {
+								return reflect.Value{}, false
+							}
+							c12MarkAppended(pm.ProtoReflect(), salt)
+							return e, true
+						}
+						v, ok := c12ScribbleVal(fd, 80+salt)
+						if !ok {
+							return reflect.Value{}, false
+						}
+						gv := reflect.ValueOf(v.Interface())
+						if !gv.Type().ConvertibleTo(t) {
+							return reflect.Value{}, false
+						}
+						return gv.Convert(t), true
+					})
+					if done {
+						continue
+					}
+				}
+				if fd.Kind() == protoreflect.MessageKind {
+					e := side.l.NewElement()
+					c12MarkAppended(e.Message(), salt)
+					side.l.Append(e)
+				} else if v, ok := c12ScribbleVal(fd, 80+salt); ok {
+					side.l.Append(v)
+				}
+			}
+		case fd.Kind() == protoreflect.MessageKind:
+			if a.Has(fd) && r.Has(fd) {
+				c12AppendEverywhere(a.Mutable(fd).Message(), r.Mutable(fd).Message(), goStyle, salt)
+			}
+		}
+	}
+}
+
+// c12MarkAppended gives an appended message element recognisable scalar values.
+func c12MarkAppended(m protoreflect.Message, salt int) {
+	fs := m.Descriptor().Fields()
+	for i := 0; i < fs.Len(); i++ {
+		fd := fs.Get(i)
+		if fd.IsList() || fd.IsMap() || fd.Kind() == protoreflect.MessageKind {
+			continue
+		}
+		if v, ok := c12ScribbleVal(fd, 90+salt); ok {
+			m.Set(fd, v)
+		}
+	}
+}
+
+// c12IntraAliasing probes one decoded message x (whose value is that of want): no two
+// slice fields may overlap in memory, and appending to every list in place must change
+// nothing but those lists (compared with a clone of want that gets the same appends).
+// x is modified. Returns "" or a description.
+func c12IntraAliasing(x, want proto.Message, what string) string {
+	d, nslices := c12Overlap(x, what)
+	if d != "" {
+		return "repeated fields of one decoded message share memory: " + d
+	}
+	if nslices < 2 {
+		return "" // fewer than two allocated slices: nothing an append could run into
+	}
+	ref := proto.Clone(want) // lists allocated one by one
+	c12AppendEverywhere(x.ProtoReflect(), ref.ProtoReflect(), false, 0)
+	c12AppendEverywhere(x.ProtoReflect(), ref.ProtoReflect(), true, 1)
+	if !proto.Equal(x, ref) {
+		return fmt.Sprintf("after one element was appended in place to every repeated field of the %s (once with protoreflect List.Append, once with a Go append on the struct field) it differs from the same message built list by list with the same appends: a repeated field was changed by an append to another one: got {%s} want {%s}", what, c12Text(x), c12Text(ref))
+	}
+	return ""
 }
 
 // ---- the step ---------------------------------------------------------------------------------------
@@ -288,6 +525,44 @@ func c12Independence(ty c12Type, want, earlier proto.Message, src []byte, useVT 
 		}
 		hist["shared_object"] = d
 		return fmt.Sprintf("%s: messages decoded by %s share a sub-message object (modifying one changes the other): %s", name, decName, d)
+	}
+	// 1b. inside one decoded message: repeated fields neither overlap in memory nor change
+	// when another repeated field of the same message is appended to
+	for _, x := range []struct {
+		n    string
+		m    proto.Message
+		want proto.Message
+	}{{"first decode", earlier, nil}, {"second decode", a, want}, {"decoded placeholder message", s, sk.ref}, {"placeholder message decoded earlier", kept, nil}} {
+		if x.want == nil { // not to be modified: memory ranges only
+			if d, _ := c12Overlap(x.m, x.n); d != "" {
+				hist["overlap"] = d
+				return fmt.Sprintf("%s: repeated fields of one message decoded by %s share memory: %s", name, decName, d)
+			}
+			continue
+		}
+		if x.m == s {
+			// the placeholder's content is fixed per type: its append probe runs once per
+			// decoder and process (also in a replay), its memory ranges are checked every time
+			c12SkelMu.Lock()
+			done := sk.probed[useVT] // set only after the probe passed
+			c12SkelMu.Unlock()
+			if done {
+				if d, _ := c12Overlap(x.m, x.n); d != "" {
+					hist["overlap"] = d
+					return fmt.Sprintf("%s: repeated fields of one message decoded by %s share memory: %s", name, decName, d)
+				}
+				continue
+			}
+		}
+		if d := c12IntraAliasing(x.m, x.want, x.n); d != "" {
+			hist["overlap"] = d
+			return fmt.Sprintf("%s: %s: %s", name, decName, d)
+		}
+		if x.m == s {
+			c12SkelMu.Lock()
+			sk.probed[useVT] = true
+			c12SkelMu.Unlock()
+		}
 	}
 	// 2. modify two of them in place; the others must not change
 	c12Scribble(a.ProtoReflect(), 0)
